@@ -164,6 +164,8 @@ class DPFSLevel3FileIO(RawIOBase):
 
     @_raise_if_level_closed
     def write(self, data: bytes) -> int:
+        # any buffer is written byte by byte, like an ordinary file does: a view of wider items is not measured in items
+        data = bytes(data)
         with self._lock:
             written = self._lv3.write_data(self._seek, data)
             self._seek += written
